@@ -249,6 +249,22 @@ def run(M, rep, tier, only=None):
             if not has_prop:
                 bad = (p, "new values are accepted without comparing their type with the property's stored type")
                 break
+            # the type that is compared with the stored one is the values' OWN type: an accepting path on which the values' type
+            # was found to differ (and was then replaced by something derived from the property) converts instead of refusing
+            def _is_prop(t):
+                return any(x and x[0] == "lres" and x[1] == "dtype" for x in subterms(t))
+
+            def _own(t):
+                return not any(x and (x[0] == "lres" or x == ("self",)) for x in subterms(t))
+            cmp_ = [(a, v) for a, v in p.decisions if a[0] == "eq" and len(a) == 3 and
+                    ((_is_prop(a[1]) and _own(a[2])) or (_is_prop(a[2]) and _own(a[1])))]
+            if any(v is False for a, v in cmp_):
+                bad = (p, "values whose own type was found to differ from the property's stored type are accepted (converted) instead of "
+                       "being refused with TypeError")
+                break
+            if not any(v is True for a, v in cmp_):
+                bad = (p, "on an accepting path the type compared with the property's stored type is not the new values' own type")
+                break
             single = any(a[0] == "isinst" and a[1] == ("param", "data") and "py:str" in a[2] and v is True for a, v in p.decisions) or \
                 any(a[0] == "isinst" and a[1] == ("param", "data") and "Iterable" in a[2] and v is False for a, v in p.decisions)
             if arr and arr[0] is False and not single:
